@@ -58,7 +58,10 @@ func init() {
 		var probes int64
 		runs := txWorlds()
 		for i := range runs {
-			runs[i].OnTransition = c03InertProbe(c, &probes)
+			inert, same := c03InertProbe(c, &probes), c03SameFailure(&probes)
+			runs[i].OnTransition = func(t *explore.Transition, newState bool) []explore.Violation {
+				return append(inert(t, newState), same(t, newState)...)
+			}
 		}
 		RunExplore(c, runs, one(monitors.FailedTxOnlyFee{}), baseAssumptions...)
 		c.Ev.Coverage["inert_rejection_probe_pairs"] = probes
